@@ -647,6 +647,27 @@ Proof.
   inv_pair H. split; [exact H0|]. split; [fa_tac|left; exact He0].
 Qed.
 
+(* a DISABLE_UNSOLICITED processed by broadcast: the only observation is the report of the processing *)
+Lemma process_broadcast_disable : forall cfg s m fid ctl fn bytes obj s' o,
+  bcast_disable_processed cfg fn obj = true ->
+  process_broadcast cfg s m fid ctl fn bytes obj = (s', o) ->
+  fn = 21 /\ o = [OInfo (IBroadcast 21 0 0)].
+Proof.
+  intros cfg s m fid ctl fn bytes obj s' o Hb H. unfold bcast_disable_processed in Hb.
+  apply andb_prop in Hb. destruct Hb as [Hb Hobj]. apply andb_prop in Hb. destruct Hb as [Hbc Hfn].
+  apply N.eqb_eq in Hfn. subst fn. destruct obj as [iin2|hdrs rh]; [discriminate Hobj|].
+  unfold process_broadcast in H. rewrite Hbc in H. cbn [negb] in H. cbv zeta in H.
+  change (fn_disable_unsol =? fn_write) with false in H.
+  change (fn_disable_unsol =? fn_direct_operate_nr) with false in H.
+  change (fn_disable_unsol =? fn_immediate_freeze_nr) with false in H.
+  change (fn_disable_unsol =? fn_freeze_clear_nr) with false in H.
+  change (fn_disable_unsol =? fn_freeze_at_time_nr) with false in H.
+  change (fn_disable_unsol =? fn_record_time) with false in H.
+  change (fn_disable_unsol =? fn_disable_unsol) with true in H. cbv iota in H.
+  destruct (enable_disable cfg _ false (ctl_seq ctl) hdrs) as [s1 r1]. inv_pair H.
+  split; reflexivity.
+Qed.
+
 Lemma write_error_response_spec : forall s from bc seq s' o,
   write_error_response s from bc seq = (s', o) -> frame s s' /\ Forall solob o.
 Proof.
@@ -935,8 +956,13 @@ Lemma unsol_wait_fragment_spec : forall cfg s resp from bc bytes d fid s1 res o,
       o = [OInfo (IUnsolConfirmed (ctl_seq (r_ctl resp)))] /\ s_deferred s1 = s_deferred s /\
       s_enabled s1 = s_enabled s
   | Some UrReturnToIdle =>
-      (last_ok s -> Forall solob o) /\ s_deferred s1 = None /\ bc = None /\
-      (exists ctl obj, d = DOk ctl 21 RvOk obj) /\ exists o1 b, o = o1 ++ [OTx from b]
+      (* a DISABLE_UNSOLICITED: answered when addressed to this outstation, only reported when broadcast *)
+      (last_ok s -> Forall solob o) /\ s_deferred s1 = None /\
+      (exists ctl obj, d = DOk ctl 21 RvOk obj) /\
+      match bc with
+      | None => exists o1 b, o = o1 ++ [OTx from b]
+      | Some _ => o = [OInfo (IBroadcast 21 0 0)]
+      end
   | Some UrTimeout => False
   | None => last_ok s -> Forall solob o
   end.
@@ -983,7 +1009,7 @@ Proof.
       destruct (fn =? fn_disable_unsol) eqn:E21; [|intros _; exact Hout].
       apply N.eqb_eq in E21. subst fn.
       split; [intros _; exact Hout|]. split; [cbn; rewrite Hd3, Hd; reflexivity|].
-      split; [reflexivity|]. split; [eauto|].
+      split; [eauto|].
       apply write_solicited_spec in E2. destruct E2 as (o' & -> & _).
       exists (o1 ++ o'). eexists. rewrite app_assoc. reflexivity.
     + inv_pair H.
@@ -1000,13 +1026,18 @@ Proof.
     eapply last_ok_response; eauto.
   - (* broadcast *)
     destruct (process_broadcast cfg (upd_deferred s None) m fid ctl fn bytes obj) as [s2 o2] eqn:E. inv_pair H.
+    pose proof (fun Hb => process_broadcast_disable _ _ _ _ _ _ _ _ _ _ Hb E) as Hdis.
     apply process_broadcast_spec in E. destruct E as (Hg & Ho & Hen).
     apply gview_wview in Hg. destruct Hg as (Hw & Hd & Hl).
     split; [rewrite Hw; reflexivity|]. split.
     { destruct Hen as [Hen|(hdrs & rh & -> & _ & Hen)]; [left; exact Hen|].
       eapply enabled_change_req; [|reflexivity].
       destruct Hen as [Hen|(Hu & Hfn & Hen)]; [left; exact Hen|right; repeat split; auto]. }
-    split; [intros Hk; eapply last_ok_same; [|exact Hk]; rewrite Hl; reflexivity|]. intros _. exact Ho.
+    split; [intros Hk; eapply last_ok_same; [|exact Hk]; rewrite Hl; reflexivity|].
+    destruct (bcast_disable_processed cfg fn obj); [|intros _; exact Ho].
+    (* fix F30: the broadcast DISABLE_UNSOLICITED ends the wait *)
+    destruct (Hdis eq_refl) as [-> ->].
+    split; [intros _; exact Ho|]. split; [rewrite Hd; reflexivity|]. split; [eauto|reflexivity].
   - (* solicited confirm *)
     inv_pair H. pose proof (bcast_confirmed_frame s false q) as Hf. apply frame_wview in Hf.
     destruct Hf as (Hw & _ & Hl & He).
@@ -1584,11 +1615,15 @@ Inductive ustep (cfg : ocfg) (e : option oevent) (s : ostate) (o : list oobs) (s
     (s_unsol_seq s', s_unsol_buf s', s_now s', s_deferred s', s_enabled s')
     = (s_unsol_seq s, s_unsol_buf s, s_now s, s_deferred s, s_enabled s) ->
     (last_ok s -> last_ok s') -> (pend_ok e s -> pend_ok e s') -> ustep cfg e s o s'
-| us_disable : forall resp n ret dl from bytes ctl obj o1,
+| us_disable : forall resp n ret dl from bc bytes ctl obj o1,
     s_control s = CUnsolWait resp n ret dl ->
-    frag_src e s from None bytes (DOk ctl 21 RvOk obj) ->
+    frag_src e s from bc bytes (DOk ctl 21 RvOk obj) ->
     o = o1 ++ (if n then [] else [ODb DbReset]) -> (last_ok s -> Forall solob o1) ->
-    (exists oa b, o1 = oa ++ [OTx from b]) ->
+    (* the request is answered when addressed to this outstation; a broadcast one is only reported *)
+    match bc with
+    | None => exists oa b, o1 = oa ++ [OTx from b]
+    | Some _ => o1 = [OInfo (IBroadcast 21 0 0)]
+    end ->
     s_control s' = CIdle ->
     s_unsol s' = (if n then UNullRequired else UReady (Some (s_now s + o_retry_delay_ms cfg)%Z)) ->
     (s_unsol_seq s', s_unsol_buf s', s_now s') = (s_unsol_seq s, s_unsol_buf s, s_now s) ->
@@ -1675,10 +1710,10 @@ Proof.
       replace (s_pending s1) with (s_pending s') by congruence. exact Hx.
   - destruct Hr.
   - (* DISABLE_UNSOLICITED *)
-    destruct Hres as (ns & o2 & E2 & ->). destruct Hr as (Ho1 & Hd & -> & (ctl & obj & ->) & Hex).
+    destruct Hres as (ns & o2 & E2 & ->). destruct Hr as (Ho1 & Hd & (ctl & obj & ->) & Hex).
     apply end_unsol_spec in E2. destruct E2 as (Hc2 & Hv2 & Hu2 & -> & _).
     assert (Hn1 : s_now s1 = s_now s0) by congruence.
-    eapply (us_disable cfg e s0 _ s' resp n ret dl from bytes ctl obj o1);
+    eapply (us_disable cfg e s0 _ s' resp n ret dl from bc bytes ctl obj o1);
       [exact Hc|exact Hsrc|destruct n; reflexivity|auto|exact Hex|exact Hc2|
        destruct n; rewrite Hu2; [reflexivity|rewrite Hn1; reflexivity]|congruence|congruence|].
     split.
